@@ -200,12 +200,17 @@ CHECKS = {
        "says, the pair invariant (packets in flight <-> awaited sets and handled set, identifiers in flight distinct, published = delivered "
        "++ PUBLISHes in flight) holds throughout, and after at most [measure] further rounds both links are empty and the messages "
        "notified are exactly the published ones, once each, in order (C01_pair_every_schedule_succeeds, C01_pair_concurrent_exactly_once: "
-       "pair invariant + termination measure); (2) any sequence of exchanges with identifier reuse, v3.1.1 and v5.0, the v5.0 Receive "
+       "pair invariant + termination measure); (1b) THE SAME ACROSS TRANSPORT LOSS - persistent sessions, one more action 'the transport "
+       "is lost, both sides are told, the client reconnects without Clean Session, the server answers Session Present, the client "
+       "retransmits its store': for every schedule of publications, deliveries and losses no call panics or reports an error, every "
+       "resumption succeeds, the extended pair invariant holds again and the links drain in at most [measure] rounds once losses stop "
+       "(C01_pair_lossy_schedule_succeeds, C01_pair_lossy_schedule_drains); (2) any sequence of exchanges with identifier reuse, v3.1.1 and v5.0, the v5.0 Receive "
        "Maximum accounts back at zero after each (C01_pair_sequence_exactly_once, ..._v5); (3) single QoS 1/2 exchanges from every admissible "
        "pair of states, both versions (C01_pair_qos1_completes, ...), all tied to step by C01_send_call_is_send_publish / "
        "C01_recv_call_is_deliver (..._v5); (4) the per-endpoint facts: fragmentation independence (C09), a transport loss leaves nothing of the "
        "cut connection behind and keeps a persistent session (C10), unmatched acknowledgements are protocol errors (C06). NOT proved "
-       "(C01_partial): transport LOSS and session resumption inside the pair theorem, manual responses, v5.0 with several exchanges in flight "
+       "(C01_partial): the delivery ACCOUNTING across losses (QoS 2 exactly once, QoS 1 at least once - the lossy theorems are safety and "
+       "progress), a loss in the middle of the resumption handshake or of a frame, manual responses, v5.0 with several exchanges in flight "
        "or topic aliases. Those, and the tie to the code, are decided on pairs of REAL objects: a Client and a Server GenericConnection "
        "wired by two byte queues under seeded workloads from both sides, arbitrary delivery interleaving and fragmentation, and transport "
        "losses at arbitrary points (incl. mid-frame) with persistent-session resumption; the monitor requires no panic and no error event on "
@@ -214,7 +219,7 @@ CHECKS = {
        "to the model by the full-digest correspondence.",
   ref="DESIGN.md §3 C01, §10.3",
   note=CONN_NOTE + " C01 replays re-run the seeded scheduler of the case on the current implementation (no shrinking).",
-  technique="Coq pair theorems (pair invariant + termination measure over arbitrary schedules on intact links; sequences; single exchanges) + system-level monitor on pairs of implementation objects with losses + full-digest correspondence with the Coq model"),
+  technique="Coq pair theorems (pair invariant + termination measure over arbitrary schedules, with and without transport losses; sequences; single exchanges) + system-level monitor on pairs of implementation objects with losses + full-digest correspondence with the Coq model"),
  "C12": dict(
   text="Coq theorems, Closed under the global context, for every state and every M: the vacancy getter is M minus the counter saturating at "
        "zero (never wraps or panics); a QoS>0 PUBLISH arriving when the peer already has the announced maximum outstanding is answered "
